@@ -1,6 +1,9 @@
 package prove
 
 import (
+	"fmt"
+	"strings"
+	"os"
 	"go/token"
 	"go/types"
 	"math/big"
@@ -325,6 +328,12 @@ func (fi *FuncInfo) headerInvariants(hb *ssa.BasicBlock) {
 					if !ok {
 						iv.dead = true
 						changed = true
+						if os.Getenv("MANTICHECK_DEBUG_INV") != "" && strings.Contains(fi.Fn.String(), os.Getenv("MANTICHECK_DEBUG_INV")) {
+							fmt.Fprintf(os.Stderr, "inv dead: %s hdr %d phi %s kind %d edge from %d\n", fi.Fn.Name(), hb.Index, iv.phi.Name(), iv.kind, hb.Preds[i].Index)
+							for _, g := range iv.goals(ec, iv.phi.Edges[i], r2) {
+								fmt.Fprintf(os.Stderr, "   goal %s\n   facts %v\n", ec.Describe(g), ec.FactStrings(g, 12))
+							}
+						}
 						break
 					}
 				}
